@@ -4,7 +4,7 @@ import json, os, subprocess
 
 VERIF = os.path.dirname(os.path.dirname(os.path.abspath(__file__)))
 
-HOOK_COMMITS = ["b2d3fbf", "041d87c", "4c251be", "2fc1294"]
+HOOK_COMMITS = ["b2d3fbf", "041d87c", "4c251be", "2fc1294", "d241bb0", "efc1640"]
 
 CLAIMED = {
     "C03": dict(
